@@ -63,11 +63,11 @@ func TestRun(t *testing.T) {
 	}
 	var out io.Writer = os.Stdout
 	if p := os.Getenv("VERIF_JOURNAL"); p != "" && p != "-" {
-		f, err := os.OpenFile(p, os.O_CREATE|os.O_TRUNC|os.O_WRONLY, 0o644)
+		mw, err := journal.NewMapWriter(p)
 		if err != nil {
 			fatalf("journal: %v", err)
 		}
-		out = f
+		out = mw
 	}
 	w := &World{
 		jw: journal.NewWriter(out), extWrites: map[int]int{}, faultsFired: map[string]int{},
